@@ -529,17 +529,14 @@ def fromIntMag (c : Cfg) (width : Nat) (neg : Bool) (mag : Nat) : Nat :=
     let bits := ((hi <<< c.fbits) % 2 ^ 64) ||| fr
     bits % 2 ^ c.nbits
 
-/-- signed source of `width` bits: the code computes `static_cast<uint64_t>(s ? -rhs : rhs)` in the promoted
-    type (int for ≤ 32 bits, the 64-bit type otherwise); the most negative int / long long wrap. -/
+/-- signed source of `width` bits (after repair 9d458c8): the magnitude is computed in unsigned arithmetic,
+    `s ? (0ull - static_cast<uint64_t>(rhs)) : static_cast<uint64_t>(rhs)`, i.e. |v| mod 2^64 for every v ≥ −2^63
+    (also for the most negative value of the type) -/
 def fromSigned (c : Cfg) (width : Nat) (v : Int) : Nat :=
   if v = 0 then 0
   else
     let neg := decide (v < 0)
-    let pw := if width ≤ 32 then 32 else 64
-    -- -rhs in pw-bit two's complement, then sign-extended to 64 bits by the cast
-    let m : Int := if neg then -v else v
-    let wrapped : Int := toSigned pw (ofSigned pw m)
-    let mag := ofSigned 64 wrapped
+    let mag := ofSigned 64 (if neg then -v else v)
     fromIntMag c width neg mag
 
 def fromUnsigned (c : Cfg) (width : Nat) (v : Nat) : Nat := fromIntMag c width false (v % 2 ^ 64)
